@@ -438,6 +438,12 @@ pub fn worker(cfg: &Cfg, args: &[String]) -> i32 {
                 let lo = c * CHUNK;
                 let hi = (lo + CHUNK).min(p.n);
                 for i in lo..hi {
+                    // every panic is already a recorded failure here; a worker that has caught its
+                    // share stops exercising (a panic on every input would take the run past the cap)
+                    if over_panic_budget() {
+                        st.class_n("cases not run: library-panic budget used up", hi - i);
+                        break;
+                    }
                     let Some(b) = phase_case(p, pi, i, cfg.seed, &s) else { continue };
                     let dup = spaces.iter().any(|sp| sp.contains(&b));
                     let mode = if dup {
